@@ -1,8 +1,8 @@
 /-
   `Safe` : decidable well-formedness of a schema set under which `FromAST` neither panics nor
   diverges (hypothesis of `C16_total_partial`).  It names exactly the partial operations of the code:
-  nil kind pointers where `As*()` is called, alias chains that do not end in a non-reference (dangling
-  or cyclic), and scalar constraints without an argument (`Args[0]`).
+  nil kind pointers where `As*()` is called, cyclic alias chains, and scalar constraints without an
+  argument (`Args[0]`).  (A *dangling* alias chain is safe since /repo eed3e31: no builder, no panic.)
 -/
 import Cog.Builder.Spec
 namespace Cog.Builder
@@ -27,7 +27,7 @@ def fieldSafe (ss : Schemas) (f : Field) : Bool :=
 def objSafe (ss : Schemas) (o : Obj) : Bool :=
   match resolveO ss (fuelFor ss) o.ty with
   | .ok (.struct fs _ _ _) => fs.all (fieldSafe ss)
-  | .ok r => !(kindIs r "struct" || kindIs r "ref")
+  | .ok r => !kindIs r "struct"
   | _ => false
 
 def Safe (ss : Schemas) : Bool := (allObjects ss).all fun so => objSafe ss so.2
